@@ -438,6 +438,22 @@ func (e *specEnv) indexExpr(x *ast.IndexExpr) sval {
 }
 
 func (e *specEnv) sliceExpr(x *ast.SliceExpr) sval {
+	// g[:] for a package-level array variable: the slice over the variable's own storage
+	if id, ok := x.X.(*ast.Ident); ok && x.Low == nil && x.High == nil && e.pkg != nil {
+		if _, bound := e.vars[id.Name]; !bound {
+			if obj, ok := e.pkg.Scope().Lookup(id.Name).(*types.Var); ok {
+				if at, ok := obj.Type().Underlying().(*types.Array); ok {
+					if sp := e.c.eng.prog.Package(obj.Pkg()); sp != nil {
+						if g, ok := sp.Members[obj.Name()].(*ssa.Global); ok {
+							e.c.seeGlobal(g)
+							n := num(at.Len())
+							return sval{Val{num(e.c.eng.globalRef(g)), "0", n, n}, types.NewSlice(at.Elem()), ""}
+						}
+					}
+				}
+			}
+		}
+	}
 	base := e.eval(x.X)
 	if base.t == nil {
 		e.errorf("slice of spec value")
